@@ -130,4 +130,23 @@ theorem roundInt53_mono (a b : Int) (h : a ≤ b) : roundInt53 a ≤ roundInt53 
     have := roundNat53_mono a.natAbs b.natAbs (by omega)
     omega
 
+/-- the conversion keeps ints below 2^1024 (the ones `float()` accepts) within `[-2^1024, 2^1024]` -/
+theorem roundNat53_le_pow1024 (n : Nat) (h : n < 2 ^ 1024) : roundNat53 n ≤ 2 ^ 1024 := by
+  by_cases hn : n < 2 ^ 53
+  · rw [roundNat53_small n hn]; omega
+  · have hn' : 2 ^ 53 ≤ n := by omega
+    have hb := (roundNat53_binade n hn').2
+    have hl : n.log2 < 1024 := (Nat.log2_lt (by omega)).mpr h
+    have : 2 ^ (n.log2 + 1) ≤ 2 ^ 1024 := Nat.pow_le_pow_right (by omega) (by omega)
+    omega
+
+theorem roundInt53_abs_le (n : Int) (h : n.natAbs < 2 ^ 1024) :
+    -(2 ^ 1024 : Int) ≤ roundInt53 n ∧ roundInt53 n ≤ 2 ^ 1024 := by
+  have hb := roundNat53_le_pow1024 n.natAbs h
+  have hc : ((roundNat53 n.natAbs : Nat) : Int) ≤ 2 ^ 1024 := by exact_mod_cast hb
+  unfold roundInt53
+  by_cases hn : n < 0
+  · rw [if_pos hn]; omega
+  · rw [if_neg hn]; omega
+
 end C10
